@@ -81,6 +81,77 @@ def build_cif(F):
     return CIFFile(blocks)
 
 
+def _raw_value(col):
+    """One column handed over in the form the specification names (CifText.tla: RawCol, FormsNoMask /
+    FormsMask).  vals are the texts, mask is [] (none given) or [mask values]."""
+    import numpy as np
+    from biotite.structure.io.pdbx import CIFColumn, CIFData
+
+    vals = [untok(v) for v in col["vals"]]
+    mask = [int(m) for m in col["mask"][0]] if col["mask"] else None
+    form = col["form"]
+    if form == "item":
+        return vals[0]
+    if form == "list":
+        return vals
+    if form == "array":
+        return np.array(vals, dtype=str)
+    if form == "data":
+        return CIFData(vals)
+    if form == "col_item":
+        return CIFColumn(vals[0])
+    if form == "col_list":
+        return CIFColumn(vals)
+    if form == "col_array":
+        return CIFColumn(np.array(vals, dtype=str))
+    if form == "col_data":
+        return CIFColumn(CIFData(vals))
+    if form == "col_data_str":
+        return CIFColumn(CIFData(np.array(vals), str))
+    if form == "col_item_mask":
+        return CIFColumn(vals[0], mask[0])
+    if form == "col_list_mask":
+        return CIFColumn(vals, mask)
+    if form == "col_array_mask":
+        return CIFColumn(np.array(vals, dtype=str), np.array(mask, dtype=np.uint8))
+    if form == "col_data_mask":
+        return CIFColumn(CIFData(np.array(vals, dtype=str)), CIFData(np.array(mask, dtype=np.uint8)))
+    if form == "col_data_listmask":
+        return CIFColumn(CIFData(vals), mask)
+    raise AssertionError(form)
+
+
+def build_raw(R, mode):
+    """The file whose columns are handed over as the raw columns R, the containers filled in the way
+    `mode`: "ctor" dictionaries given to the constructors, "setitem" empty containers filled by
+    assignment (innermost first), "topdown" assignment through the already nested containers."""
+    from biotite.structure.io.pdbx import CIFBlock, CIFCategory, CIFFile
+
+    if mode == "ctor":
+        return CIFFile({untok(b["name"]): CIFBlock({untok(c["name"]): CIFCategory(
+            {untok(col["name"]): _raw_value(col) for col in c["cols"]}) for c in b["cats"]}) for b in R})
+    f = CIFFile()
+    for b in R:
+        bn = untok(b["name"])
+        if mode == "topdown":
+            f[bn] = CIFBlock()
+            for c in b["cats"]:
+                f[bn][untok(c["name"])] = CIFCategory()
+                for col in c["cols"]:
+                    f[bn][untok(c["name"])][untok(col["name"])] = _raw_value(col)
+        elif mode == "setitem":
+            blk = CIFBlock()
+            for c in b["cats"]:
+                cat = CIFCategory()
+                for col in c["cols"]:
+                    cat[untok(col["name"])] = _raw_value(col)
+                blk[untok(c["name"])] = cat
+            f[bn] = blk
+        else:
+            raise AssertionError(mode)
+    return f
+
+
 def project_cif(g):
     out = []
     for bn in g:
@@ -100,15 +171,25 @@ def project_cif(g):
     return out
 
 
-def roundtrip_cif(F):
-    """CIFFile.deserialize(CIFFile(F).serialize()), projected.  -> (obs, text)"""
+def roundtrip_cif(F, raw=None, mode="ctor"):
+    """CIFFile.deserialize(file.serialize()), projected.  -> (obs, text, before)
+    The file is built from F in the standard way, or from the raw columns `raw` (construction forms);
+    `before` is then the table that the built object holds (read from a copy), None otherwise."""
     from biotite.structure.io.pdbx import CIFFile
 
-    text = build_cif(F).serialize()
+    if raw:
+        f = build_raw(raw, mode)
+        try:
+            before = project_cif(copy.deepcopy(f))
+        except Exception as e:  # noqa: BLE001
+            before = [{"name": ["<projection failed: %s>" % type(e).__name__], "cats": []}]
+    else:
+        f, before = build_cif(F), None
+    text = f.serialize()
     try:
-        return {"oc": "ok", "f": project_cif(CIFFile.deserialize(text))}, text
+        return {"oc": "ok", "f": project_cif(CIFFile.deserialize(text))}, text, before
     except Exception:  # noqa: BLE001  any exception of the reader is the outcome "err"
-        return {"oc": "err", "f": []}, text
+        return {"oc": "err", "f": []}, text, before
 
 
 def _canon_file(f):
@@ -138,19 +219,119 @@ def exec_text(item):
     kbmiss = 0
     for case in item["cases"]:
         F, kb, impl = case["F"], case["kb"], case["impl"]
-        progress({"F": F})
-        obs, text = roundtrip_cif(F)
+        raw, how = case.get("raw") or None, case.get("how") or {}
+        progress({"F": F, "how": how})
+        try:
+            obs, text, before = roundtrip_cif(F, raw, how.get("mode", "ctor"))
+        except Exception as e:  # noqa: BLE001  a table of the domain in a documented form is refused
+            if not raw:
+                raise
+            obs, text, before = {"oc": "err", "f": []}, "", [{"name": ["<%s>" % type(e).__name__], "cats": []}]
         n += 1
         if "txt" in case and tok(text) != case["txt"]:
             textdiff += 1
-        if _canon_file(obs) == _canon_file({"oc": "ok", "f": F}):
+        bad = []
+        # the table the object holds before it is written: the specification's StoredFile(raw) = F
+        if before is not None and _canon_file(before) != _canon_file(F):
+            bad.append("before")
+        if _canon_file(obs) != _canon_file({"oc": "ok", "f": F}):
+            bad.append("after")
+        if not bad:
             if kb:
                 kbmiss += 1
             continue
-        mism.append({"kind": "text", "kb": kb, "known_shape": bool(kb) and _canon_file(obs) == _canon_file(impl),
-                     "F": F, "expected": {"oc": "ok", "f": F}, "observed": obs,
-                     "model_prediction": impl, "text": text})
+        rec = {"kind": "text", "kb": kb, "bad": bad,
+               "known_shape": bad == ["after"] and bool(kb) and _canon_file(obs) == _canon_file(impl),
+               "F": F, "expected": {"oc": "ok", "f": F}, "observed": obs,
+               "model_prediction": impl, "text": text}
+        if raw:
+            rec.update({"how": how, "raw": raw, "before": before})
+        mism.append(rec)
     return {"mismatch": mism, "n": n, "textdiff": textdiff, "kbmiss": kbmiss}
+
+
+# --------------------------------------------------------------------------- pairs of texts: real side
+def _read_all(text):
+    """What the real reader makes of a text, everything accessed: {"oc", "f"} as the reader model."""
+    from biotite.structure.io.pdbx import CIFFile
+
+    try:
+        return {"oc": "ok", "f": project_cif(CIFFile.deserialize(text))}
+    except Exception:  # noqa: BLE001
+        return {"oc": "err", "f": []}
+
+
+def _access(f, how, bn):
+    """Prior access of a freshly parsed file (MCPairs: Access): nothing / the block (its categories
+    stay text) / everything read."""
+    if how == "block":
+        f[bn]
+    elif how == "all":
+        project_cif(f)
+    elif how != "none":
+        raise AssertionError(how)
+
+
+PAIR_LEVELS = (("file", ("none", "block", "all")), ("block", ("block", "all")), ("cat", ("block", "all")))
+
+
+def pair_verdicts(left, right, level, al, ar, bn, cn):
+    """Both texts parsed afresh, accessed as told, compared at the level: the answers of `==` (both
+    ways, and again after the first comparison has parsed what it needed) and of `!=`."""
+    from biotite.structure.io.pdbx import CIFFile
+
+    try:
+        lf, rf = CIFFile.deserialize(left), CIFFile.deserialize(right)
+        _access(lf, al, bn)
+        _access(rf, ar, bn)
+        if level == "file":
+            a, b = lf, rf
+        elif level == "block":
+            a, b = lf[bn], rf[bn]
+        else:
+            a, b = lf[bn][cn], rf[bn][cn]
+        return ["eq" if x else "ne" for x in (bool(a == b), bool(b == a), not bool(a != b), bool(a == b))]
+    except Exception as e:  # noqa: BLE001
+        return ["raised:" + type(e).__name__]
+
+
+def exec_pairs(item):
+    """S2 child: a group of (left text, other texts) cases of MCPairs."""
+    from harness.tlabind.pool import progress
+
+    mism = []
+    n = evals = readdiff = skipped = 0
+    bn, cn = "b", "c"
+    for case in item["cases"]:
+        left = untok(case["txt"])
+        progress({"st": case["st"], "left": left})
+        n += 1
+        # the verdicts are stated on what the reader model makes of the texts: they are demanded only
+        # where the real reader makes the same of them (reading other writers' text is a diagnostic)
+        if _canon_file(_read_all(left)) != _canon_file(case["rd"]):
+            readdiff += 1
+            continue
+        for o in case["others"]:
+            right = untok(o["txt"])
+            if _canon_file(_read_all(right)) != _canon_file(o["rd"]):
+                readdiff += 1
+                continue
+            for level, accs in PAIR_LEVELS:
+                exp = o["eq"][level]
+                if exp == "na":
+                    skipped += 1
+                    continue
+                for al in accs:
+                    for ar in accs:
+                        if al not in case["acc"] or ar not in case["acc"]:
+                            continue
+                        got = pair_verdicts(left, right, level, al, ar, bn, cn)
+                        evals += 1
+                        if got != [exp] * 4:
+                            mism.append({"kind": "pair", "kb": [], "level": level, "access": [al, ar],
+                                         "other": o["id"], "st": case["st"], "left": left, "right": right,
+                                         "expected": exp, "observed": got})
+    return {"mismatch": mism, "n": n, "evals": evals, "readdiff": readdiff, "skipped": skipped}
 
 
 # --------------------------------------------------------------------------- containers: real side
@@ -275,24 +456,60 @@ def reload_file(fl, f):
     return F.read(buf)
 
 
-EQ_SELF = ("self", "rev", "revkeys")
+EQ_SELF = ("self", "rev", "revkeys", "deeprev")
+EQ_PROVS = ("fresh", "lazy", "read")
 
 
-def eq_other(fl, cont, arg, mk_lit):
-    """The other operand of an equality call: a literal, or a mapping derived from an independent
-    copy of the container itself (Containers.tla: Derived) - "rev": the same key -> value pairs
-    inserted in the opposite order, "revkeys": the keys in the opposite order over the values in
-    their old positions."""
-    if arg not in EQ_SELF:
-        return mk_lit(fl, arg)
-    cp = copy.deepcopy(cont)
-    if arg == "self":
-        return cp
-    keys = list(cp)
-    vals = [cp[k] for k in keys]
-    if arg == "rev":
-        return type(cont)(dict(zip(reversed(keys), reversed(vals))))
-    return type(cont)(dict(zip(reversed(keys), vals)))
+class NoOperand(Exception):
+    """The lazily parsed operand of an equality call cannot be built: its content cannot be written."""
+
+
+def _deeprev(cont, depth):
+    """The same mapping with the keys inserted in the opposite order at every container level below."""
+    keys = list(cont)
+    vals = [cont[k] for k in keys]
+    if depth > 1:
+        vals = [_deeprev(v, depth - 1) for v in vals]
+    return type(cont)(dict(zip(reversed(keys), reversed(vals))))
+
+
+def eq_other(fl, cont, arg, mk_lit, level=0):
+    """The other operand of an equality call (Containers.tla: EqOther, EqProvs).  arg = [kind, prov]:
+    a literal, or a mapping derived from an independent copy of the container itself - "rev": the same
+    key -> value pairs inserted in the opposite order, "revkeys": the keys in the opposite order over
+    the values in their old positions, "deeprev": opposite insertion order at every level; prov
+    "fresh": as built, "lazy": written and read back with nothing accessed, "read": written, read
+    back and everything accessed.  level: 0 file, 1 block, 2 category."""
+    kind = arg[0]
+    prov = arg[1] if len(arg) > 1 else "fresh"
+    if kind not in EQ_SELF:
+        other = mk_lit(fl, kind)
+    else:
+        cp = copy.deepcopy(cont)
+        if kind == "self":
+            other = cp
+        elif kind == "deeprev":
+            other = _deeprev(cp, 3 - level)
+        else:
+            keys = list(cp)
+            vals = [cp[k] for k in keys]
+            if kind == "rev":
+                other = type(cont)(dict(zip(reversed(keys), reversed(vals))))
+            else:
+                other = type(cont)(dict(zip(reversed(keys), vals)))
+    if prov == "fresh":
+        return other
+    F, B, _C = _cls(fl)
+    wrapped = other if level == 0 else F({"b1": other}) if level == 1 else F({"b1": B({"c1": other})})
+    try:
+        g = reload_file(fl, wrapped)
+    except Exception as e:  # noqa: BLE001  the property does not name the class of the refusal
+        raise NoOperand() from e
+    if prov == "read":
+        proj_file(g)
+    elif prov != "lazy":
+        raise AssertionError(prov)
+    return g if level == 0 else g["b1"] if level == 1 else g["b1"]["c1"]
 
 
 def observe_ser(fl, f):
@@ -336,7 +553,7 @@ def apply_map(fl, holder, pb, pc, op, a):
         elif op == "FContains":
             out = a[0] in f
         elif op == "FEq":
-            other = eq_other(fl, f, a[0], mk_file)
+            other = eq_other(fl, f, a, mk_file, 0)
             out = bool(f == other)
             if bool(f != other) == out:
                 out = "== and != agree"
@@ -359,7 +576,7 @@ def apply_map(fl, holder, pb, pc, op, a):
             elif op == "BContains":
                 out = a[0] in b
             elif op == "BEq":
-                other = eq_other(fl, b, a[0], mk_block)
+                other = eq_other(fl, b, a, mk_block, 1)
                 out = bool(b == other)
                 if bool(b != other) == out:
                     out = "== and != agree"
@@ -382,7 +599,7 @@ def apply_map(fl, holder, pb, pc, op, a):
             elif op == "CContains":
                 out = a[0] in c
             elif op == "CEq":
-                other = eq_other(fl, c, a[0], mk_cat)
+                other = eq_other(fl, c, a, mk_cat, 2)
                 out = bool(c == other)
                 if bool(c != other) == out:
                     out = "== and != agree"
@@ -393,6 +610,8 @@ def apply_map(fl, holder, pb, pc, op, a):
         return "ok", out
     except KeyError:
         return "KeyError", []
+    except NoOperand:
+        return "NoOperand", []
     except AssertionError:
         raise
     except Exception:  # noqa: BLE001  the property does not name the class of other refusals
@@ -623,13 +842,184 @@ def _rand_file(rng, profile):
     return F
 
 
+NOMASK_FORMS = ["list", "array", "data", "col_list", "col_array", "col_data", "col_data_str"]
+MASK_FORMS = ["col_list_mask", "col_array_mask", "col_data_mask", "col_data_listmask"]
+
+
+def _rand_raw(rng, F):
+    """A random way of handing the table F over (CifText.tla: RawCol): per column a form; with an
+    explicit mask the text under a masked cell is arbitrary.  TLC checks StoredFile(raw) = F."""
+    R = []
+    for b in F:
+        cats = []
+        for c in b["cats"]:
+            cols = []
+            for col in c["cols"]:
+                cells = col["cells"]
+                one = len(cells) == 1
+                if rng.random() < 0.55:
+                    form = rng.choice(NOMASK_FORMS + (["item", "col_item"] if one else []))
+                    vals = [x["v"] if x["m"] == 0 else (["dot"] if x["m"] == 1 else ["qm"]) for x in cells]
+                    mask = []
+                else:
+                    form = rng.choice(MASK_FORMS + (["col_item_mask"] if one else []))
+                    vals = [x["v"] if x["m"] == 0 else
+                            rng.choice([["dot"], ["qm"], [], ["j", "sp", "sq"], [rng.choice(PLAIN)]]) for x in cells]
+                    mask = [[x["m"] for x in cells]]
+                cols.append({"name": col["name"], "form": form, "vals": vals, "mask": mask})
+            cats.append({"name": c["name"], "cols": cols})
+        R.append({"name": b["name"], "cats": cats})
+    return R
+
+
 def gen_text_trace(item):
     rng = random.Random(item["seed"])
     events = []
     for _ in range(item["n"]):
         F = _rand_file(rng, item["profile"])
-        obs, text = roundtrip_cif(F)
-        events.append({"kind": "text", "F": F, "obs": obs, "txt": tok(text)})
+        raw = _rand_raw(rng, F)
+        mode = rng.choice(["ctor", "setitem", "topdown"])
+        try:
+            obs, text, before = roundtrip_cif(F, raw, mode)
+        except Exception as e:  # noqa: BLE001  a table of the domain in a documented form is refused
+            obs, text, before = {"oc": "err", "f": []}, "", [{"name": ["<%s>" % type(e).__name__], "cats": []}]
+        events.append({"kind": "text", "F": F, "raw": raw, "mode": mode, "before": before, "obs": obs,
+                       "txt": tok(text)})
+    return {"events": events}
+
+
+# --------------------------------------------------------------------------- S3: pairs of texts
+_BARE_BAD = {"us", "hash", "dollar", "lbr", "rbr", "sq", "dq", "semi"} | set(RESERVED)
+
+
+def _rand_render(rng, cell):
+    """One cell in a randomly chosen quoting style.  Only a generator: whether the style is legal for
+    the value is irrelevant, TLC judges what the reader model makes of the text."""
+    if cell["m"] != 0:
+        return ["dot"] if cell["m"] == 1 else ["qm"]
+    v = cell["v"]
+    styles = ["text"]
+    if "nl" not in v:
+        if "sq" not in v:
+            styles += ["sq", "sq"]
+        if "dq" not in v:
+            styles += ["dq", "dq"]
+        if v and v[0] not in _BARE_BAD and not ({"sp", "tab"} & set(v)) and v not in (["dot"], ["qm"]):
+            styles += ["bare"] * 3
+    if rng.random() < 0.05:
+        styles = ["sq", "dq", "text"] + (["bare"] if v else [])
+    st = rng.choice(styles)
+    if st == "bare":
+        return list(v)
+    if st == "text":
+        return ["nl", "semi"] + list(v) + ["nl", "semi", "nl"]
+    return [st] + list(v) + [st]
+
+
+def _rand_write(rng, F):
+    """The file F in a random rendering (quoting styles, blank runs, one-row categories as loops,
+    comment / empty lines, values on lines of their own); returns tokens."""
+    out = []
+
+    def sep():
+        return rng.choice([["sp"]] * 4 + [["sp", "sp"]] * 3 + [["sp", "sp", "sp"]] * 2 + [["tab"]])
+
+    def put(t, r):
+        # append the rendering r of a value to the text t
+        at_bol = not t or t[-1] == "nl"
+        if r[0] == "nl":                       # a text field: opens on a line of its own, ends its line
+            return t + (r[1:] if at_bol else r)
+        return t + ([] if at_bol else sep()) + r
+    for b in F:
+        out += ["data_"] + b["name"] + ["nl"]
+        for c in b["cats"]:
+            if rng.random() < 0.4:
+                out += ["hash"] + rng.choice([[], ["sp", "r"]]) + ["nl"]
+            if rng.random() < 0.2:
+                out += ["nl"]
+            nrow = len(c["cols"][0]["cells"])
+            split = rng.random() < 0.25
+            if nrow == 1 and rng.random() < 0.7:
+                for col in c["cols"]:
+                    t = ["us"] + c["name"] + ["dot"] + col["name"]
+                    if split:
+                        t += ["nl"]
+                    t = put(t, _rand_render(rng, col["cells"][0]))
+                    if t[-1] != "nl":
+                        t += ["nl"]
+                    out += t
+            else:
+                out += ["loop_", "nl"]
+                for col in c["cols"]:
+                    out += ["us"] + c["name"] + ["dot"] + col["name"] + ["nl"]
+                for i in range(nrow):
+                    t = []
+                    for col in c["cols"]:
+                        t = put(t, _rand_render(rng, col["cells"][i]))
+                        if split and t[-1] != "nl":
+                            t += ["nl"]
+                    if t[-1] != "nl":
+                        t += ["nl"]
+                    out += t
+            if rng.random() < 0.4:
+                out += ["hash", "nl"]
+    return out
+
+
+def _rand_change(rng, F):
+    """A file that differs from F in one place, or the same mapping inserted in another order."""
+    G = copy.deepcopy(F)
+    b = rng.choice(G)
+    c = rng.choice(b["cats"])
+    col = rng.choice(c["cols"])
+    how = rng.choice(["cell", "cell", "mask", "colrev", "catrev", "rowrev", "colkey", "dropcol"])
+    if how == "cell":
+        x = rng.choice(col["cells"])
+        x["v"], x["m"] = (x["v"] + ["z"] if x["m"] == 0 else ["z"]), 0
+    elif how == "mask":
+        x = rng.choice(col["cells"])
+        x["v"], x["m"] = [], (1 if x["m"] != 1 else 2)
+    elif how == "colrev":
+        c["cols"].reverse()
+    elif how == "catrev":
+        b["cats"].reverse()
+        G.reverse()
+    elif how == "rowrev":
+        for k in c["cols"]:
+            k["cells"].reverse()
+    elif how == "colkey":
+        col["name"] = col["name"] + ["9", "9", "9", "9", "9", "9"]
+    elif how == "dropcol" and len(c["cols"]) > 1:
+        c["cols"].remove(col)
+    return G
+
+
+def gen_pair_trace(item):
+    """Two texts, what the real reader makes of each, and the answers of `==` between the two freshly
+    parsed files for every pattern of prior access (Trace.tla: kind "pair")."""
+    rng = random.Random(item["seed"])
+    events = []
+    for _ in range(item["n"]):
+        F = _rand_file(rng, "tame")
+        left = untok(_rand_write(rng, F))
+        r = rng.random()
+        if r < 0.4:
+            right = untok(_rand_write(rng, F))
+        elif r < 0.6:
+            right = build_cif(F).serialize()
+        elif r < 0.8:
+            right = untok(_rand_write(rng, _rand_change(rng, F)))
+        else:
+            right = build_cif(_rand_change(rng, F)).serialize()
+        bn, cn = untok(F[0]["name"]), untok(F[0]["cats"][0]["name"])
+        eqs = []
+        for level, accs in PAIR_LEVELS:
+            for al in accs:
+                for ar in accs:
+                    got = pair_verdicts(left, right, level, al, ar, bn, cn)
+                    eqs.append({"level": level, "al": al, "ar": ar, "got": sorted(set(got))})
+        events.append({"kind": "pair", "left": tok(left), "right": tok(right), "bn": tok(bn), "cn": tok(cn),
+                       "lrd": _read_all(left), "rrd": _read_all(right), "eqs": eqs})
     return {"events": events}
 
 
@@ -656,19 +1046,21 @@ def gen_map_trace(item):
         elif op in ("FGet", "FDel", "FContains"):
             a = [rng.choice(bk)]
         elif op == "FEq":
-            a = [rng.choice(["self", "rev", "revkeys", "F0", "F1", "F2", "F3"])]
+            a = [rng.choice(["self", "rev", "revkeys", "deeprev", "deeprev", "F0", "F1", "F2", "F3"]),
+                 rng.choice(EQ_PROVS)]
         elif op == "BSet":
             a = [rng.choice(ck), rng.choice(["C1", "C2", "C3", "C4"])]
         elif op in ("BGet", "BDel", "BContains"):
             a = [rng.choice(ck)]
         elif op == "BEq":
-            a = [rng.choice(["self", "rev", "revkeys", "B0", "B1", "B2", "B3"])]
+            a = [rng.choice(["self", "rev", "revkeys", "deeprev", "deeprev", "B0", "B1", "B2", "B3"]),
+                 rng.choice(EQ_PROVS)]
         elif op == "CSet":
             a = [rng.choice(kk), rng.choice(["x", "y", "zz"]), rng.choice(["col", "data"])]
         elif op in ("CGet", "CDel", "CContains"):
             a = [rng.choice(kk)]
         elif op == "CEq":
-            a = [rng.choice(["self", "rev", "revkeys", "C1", "C2", "C3", "C4"])]
+            a = [rng.choice(["self", "rev", "revkeys", "deeprev", "C1", "C2", "C3", "C4"]), rng.choice(EQ_PROVS)]
         else:
             a = []
         progress({"fl": fl, "op": op, "a": a})
@@ -709,10 +1101,15 @@ def classify(mm):
 def replay(record):
     kind = record.get("kind")
     if kind in ("text", "event-text"):
-        obs, text = roundtrip_cif(record["F"])
+        obs, text, before = roundtrip_cif(record["F"], record.get("raw"), (record.get("how") or {}).get("mode", "ctor"))
         exp = {"oc": "ok", "f": record["F"]}
-        return {"text": text, "observed": obs, "expected": exp,
-                "mismatch": _canon_file(obs) != _canon_file(exp)}
+        return {"text": text, "observed": obs, "before": before, "expected": exp,
+                "mismatch": _canon_file(obs) != _canon_file(exp)
+                or (before is not None and _canon_file(before) != _canon_file(record["F"]))}
+    if kind == "pair":
+        got = pair_verdicts(record["left"], record["right"], record["level"], record["access"][0],
+                            record["access"][1], record.get("bn", "b"), record.get("cn", "c"))
+        return {"observed": got, "expected": record["expected"], "mismatch": set(got) != {record["expected"]}}
     if kind == "step":
         fl = record["fl"]
         holder = {"f": _cls(fl)[0]()}
@@ -835,7 +1232,23 @@ def run(ctx):
     ctx.cov["text_inputs_leader_and_apostrophe_and_blank"] = nprod
     if nprod == 0:
         _vacuity("no enumerated value combines a leading special character, an apostrophe and a blank")
-    cases = [{"F": s["inp"], "kb": s["kb"], "impl": s["impl"]} for s in done]
+    # construction forms (MCText: FormInputs): every form of the configuration must have been enumerated,
+    # with and without mask states in the table
+    formseen = {}
+    for s in done:
+        if s["how"]["form"] != "auto":
+            k = s["how"]["form"] + ":" + s["how"]["mode"]
+            formseen[k] = formseen.get(k, 0) + 1
+    ctx.cov["text_inputs_per_construction_form"] = dict(sorted(formseen.items()))
+    need_forms = {"item", "list", "array", "data", "col_item", "col_list", "col_array", "col_data", "col_data_str",
+                  "col_item_mask", "col_list_mask", "col_array_mask", "col_data_mask", "col_data_listmask"}
+    if need_forms - {k.split(":")[0] for k in formseen}:
+        _vacuity(f"construction forms never enumerated: {sorted(need_forms - {k.split(':')[0] for k in formseen})}")
+    if not any(s["how"]["form"] in ("data", "col_data") and any(v in (["dot"], ["qm"]) for b in s["raw"] for c in b["cats"]
+                                                                 for col in c["cols"] for v in col["vals"]) for s in done):
+        _vacuity("no enumerated CIFData column carries a '.' / '?' text without an explicit mask")
+    cases = [dict({"F": s["inp"], "kb": s["kb"], "impl": s["impl"]},
+                  **({} if s["how"]["form"] == "auto" else {"how": s["how"], "raw": s["raw"]})) for s in done]
     ctx.rng.shuffle(cases)
     items = [{"cases": c} for c in helpers.chunked(cases, 100)]
     results = helpers.run_pool(ctx, "harness.drivers.c06:exec_text", items, stage="S2-text")
@@ -860,6 +1273,50 @@ def run(ctx):
     ctx.evaluations += nk
     ctx.cov["s2_key_cases"] = nk
     ctx.nontrivial += sum(1 for s in kstates if s["key"][0] == "us")
+
+    # ================================================================= pairs of texts: S1 + S2
+    res, pstates = helpers.dump_states(ctx, "MCPairs", "MCP.cfg" if quick else "MCP_thorough.cfg", stage="S1-pairs",
+                                       workers=12, timeout=2400)
+    pdone = [s for s in pstates if s["done"]]
+    if not pdone or 2 * len(pdone) != res.distinct:
+        raise RuntimeError(f"MCPairs: {len(pdone)} evaluated states of {res.distinct}")
+    understood = sum(1 for s in pdone if _canon_file(s["rd"]) == _canon_file({"oc": "ok", "f": s["inp"]}))
+    ctx.cov["pair_cases"] = len(pdone)
+    ctx.cov["pair_cases_rendering_read_as_the_table_by_the_reader_model"] = understood
+    if 2 * understood < len(pdone):
+        _vacuity(f"the reader model understands only {understood} of {len(pdone)} renderings")
+    pseen = {}
+    for s in pdone:
+        for o in s["others"]:
+            for lv in ("file", "block", "cat"):
+                k = f"{lv}:{o['eq'][lv]}:{'same text' if o['txt'] == s['txt'] else 'other text'}"
+                pseen[k] = pseen.get(k, 0) + 1
+    ctx.cov["pair_demanded_answers"] = dict(sorted(pseen.items()))
+    for lv in ("file", "block", "cat"):
+        for want in (f"{lv}:eq:other text", f"{lv}:ne:other text", f"{lv}:eq:same text"):
+            if want not in pseen:
+                _vacuity(f"pairs of texts: answer never demanded: {want}")
+    pcases = [{k: s[k] for k in ("st", "txt", "rd", "others", "acc")} for s in pdone]
+    ctx.rng.shuffle(pcases)
+    pres = helpers.run_pool(ctx, "harness.drivers.c06:exec_pairs", [{"cases": c} for c in helpers.chunked(pcases, 8)],
+                            stage="S2-pairs", item_timeout=300)
+    npairs = sum(r.get("n", 0) for r in pres)
+    nev = sum(r.get("evals", 0) for r in pres)
+    ctx.traces_validated += npairs
+    ctx.evaluations += nev
+    ctx.nontrivial += sum(1 for s in pdone if any(o["txt"] != s["txt"] and o["eq"]["file"] == "eq" for o in s["others"]))
+    ctx.cov["s2_pair_cases"] = npairs
+    ctx.cov["s2_pair_comparisons"] = nev
+    ctx.cov["s2_pair_texts_reader_differs_from_model"] = sum(r.get("readdiff", 0) for r in pres)
+    if ctx.cov["s2_pair_texts_reader_differs_from_model"]:
+        ctx.note(f"diagnostic: the real reader and the reader model disagree on "
+                 f"{ctx.cov['s2_pair_texts_reader_differs_from_model']} renderings that biotite did not write "
+                 "(comparisons with them are not judged)")
+    if nev < 20 * len(pdone):
+        _vacuity(f"pairs of texts: only {nev} comparisons executed for {len(pdone)} cases")
+    for c in pcases[:1]:
+        ctx.sample({"s2_pair_case": {"st": c["st"], "left": untok(c["txt"]),
+                                     "others": [[o["id"], o["eq"]] for o in c["others"]]}})
 
     # ================================================================= containers: S1 + S2
     th.join()
@@ -890,7 +1347,7 @@ def run(ctx):
         st = g.state(nid)
         f = to_py(st["f"])
         jstates[k] = {"fl": st["fl"], "oc": st["oc"], "out": to_py(st["out"]), "kb": to_py(st["kb"]),
-                      "abs": _abs_file(f), "lazy": model_lazy_shape(f), "ser": _tla_bool(st["ser"])}
+                      "abs": _abs_file(f), "lazy": model_lazy_shape(f), "ser": _tla_bool(st["ser"]), "lazyf": f}
         seen_oc[st["oc"]] = seen_oc.get(st["oc"], 0) + 1
         for x in jstates[k]["kb"]:
             seen_kb[(st["fl"], x)] = seen_kb.get((st["fl"], x), 0) + 1
@@ -903,13 +1360,24 @@ def run(ctx):
     for (_s, lab, dd) in g.edges:
         o, a = labels[lab_ix[lab]]
         if o in ("FEq", "BEq", "CEq") and a[0] in EQ_SELF:
-            key = f"{o}:{a[0]}:{jstates[ids[dd]]['out']}"
+            jd = jstates[ids[dd]]
+            key = f"{o}:{a[0]}:{a[1]}:{jd['out'] if jd['oc'] == 'ok' else jd['oc']}"
             eqseen[key] = eqseen.get(key, 0) + 1
     ctx.cov["map_eq_derived_operand_transitions"] = dict(sorted(eqseen.items()))
     for o in ("FEq", "BEq", "CEq"):
-        for want in (f"{o}:rev:True", f"{o}:revkeys:True", f"{o}:revkeys:False"):
+        for want in (f"{o}:rev:fresh:True", f"{o}:revkeys:fresh:True", f"{o}:revkeys:fresh:False",
+                     f"{o}:self:lazy:True", f"{o}:deeprev:lazy:True", f"{o}:deeprev:read:True",
+                     f"{o}:revkeys:lazy:False", f"{o}:deeprev:lazy:NoOperand"):
             if want not in eqseen:
                 _vacuity(f"equality with a derived operand never evaluated to this answer: {want}")
+    # a lazily parsed operand with another serialised form, against a container that still has serialised
+    # elements itself (both operands of `==` unparsed, texts / encodings differ, contents equal)
+    nboth = sum(1 for (sr, lab, dd) in g.edges
+                if labels[lab_ix[lab]][0] in ("FEq", "BEq") and labels[lab_ix[lab]][1][:2] == ["deeprev", "lazy"]
+                and jstates[ids[dd]]["oc"] == "ok" and _has_lazy_multicol(jstates[ids[sr]]["lazyf"]))
+    ctx.cov["map_eq_both_operands_serialised_other_order"] = nboth
+    if nboth == 0:
+        _vacuity("no equality call with both operands still serialised and a re-ordered multi-column category")
     serseen = {}
     for st in jstates:
         serseen[str(st["ser"])] = serseen.get(str(st["ser"]), 0) + 1
@@ -918,7 +1386,7 @@ def run(ctx):
         _vacuity(f"write/read observation has one outcome only: {serseen}")
     ctx.cov["map_states_with_serialised_elements"] = lazy_states
     ctx.cov["map_states_per_kb"] = {f"{a}:{b}": n for (a, b), n in sorted(seen_kb.items())}
-    if not {"ok", "KeyError", "Rejected"} <= set(seen_oc):
+    if not {"ok", "KeyError", "Rejected", "NoOperand"} <= set(seen_oc):
         _vacuity(f"outcomes not all reached: {seen_oc}")
     # BcifBlockDel (repaired by biotite 08201441) and StaleRowCount (repaired by biotite c2b1fbb3) are no
     # longer tagged by Containers.tla: no recorded-defect transition is expected in the state graph
@@ -930,6 +1398,8 @@ def run(ctx):
     limit = 30000 if quick else None
     paths, covered = dot.covering_paths(g, max_len=10, limit=limit, rng=ctx.rng)
     gfile = os.path.join(d, "graph.json")
+    for st in jstates:
+        st.pop("lazyf")
     with open(gfile, "w") as fh:
         json.dump({"states": jstates, "labels": labels}, fh)
     pitems = [{"init": ids[root], "steps": [[lab_ix[lab], ids[dst]] for lab, dst in steps]}
@@ -977,8 +1447,10 @@ def run(ctx):
     nmap = 60 if quick else 600
     mitems = [{"seed": ctx.rng.randrange(1 << 30), "length": 30 if quick else 40,
                "fl": "text" if k % 2 else "binary"} for k in range(nmap)]
+    qitems = [{"seed": ctx.rng.randrange(1 << 30), "n": 8 if quick else 12} for _ in range(12 if quick else 100)]
     traces = []
     for target, its in (("harness.drivers.c06:gen_text_trace", titems),
+                        ("harness.drivers.c06:gen_pair_trace", qitems),
                         ("harness.drivers.c06:gen_map_trace", mitems)):
         for it, r in zip(its, pool.run_isolated(target, its, item_timeout=120)):
             if "driver_error" in r:
@@ -991,7 +1463,8 @@ def run(ctx):
     clean = validate_traces(ctx, traces)
     # binding self-test on traces without any disagreement: corrupt one observation each
     picked = [traces[i] for i in clean if traces[i][0]["kind"] == "text"][:2] + \
-             [traces[i] for i in clean if traces[i][0]["kind"] == "map"][:2]
+             [traces[i] for i in clean if traces[i][0]["kind"] == "map"][:2] + \
+             [traces[i] for i in clean if traces[i][0]["kind"] == "pair"][:1]
 
     ncorr = [0]
 
@@ -1004,7 +1477,20 @@ def run(ctx):
                     e["ser"] = {"oc": "Rejected", "abs": []} if e["ser"]["oc"] == "ok" else \
                         {"oc": "ok", "abs": e["abs"]}
                     return True
+        if tr[0]["kind"] == "text" and ncorr[0] % 2 == 1 and tr[0]["before"] and tr[0]["before"][0]["cats"]:
+            # the table held before writing: claim another mask state
+            c = tr[0]["before"][0]["cats"][0]["cols"][0]["cells"][0]
+            c["m"], c["v"] = (1 if c["m"] != 1 else 2), []
+            return True
         for e in tr:
+            if e["kind"] == "pair":
+                # claim the opposite answer of a comparison that TLC judges
+                for q in e["eqs"]:
+                    if q["got"] in (["eq"], ["ne"]):
+                        q["got"] = ["ne"] if q["got"] == ["eq"] else ["eq"]
+                if e["lrd"]["oc"] == "ok" and e["rrd"]["oc"] == "ok":
+                    return True
+                continue
             if e["kind"] == "text" and e["obs"]["oc"] == "ok":
                 c = e["obs"]["f"][0]["cats"][0]["cols"][0]["cells"][0]
                 c["v"] = c["v"] + ["x"] if c["m"] == 0 else ["x"]
@@ -1018,9 +1504,14 @@ def run(ctx):
                 return True
         return False
     if picked:
-        helpers.binding_selftest(ctx, picked, corrupt, max_traces=4)
+        helpers.binding_selftest(ctx, picked, corrupt, max_traces=5)
     else:
         ctx.note("binding self-test skipped: no trace without disagreement")
+
+
+def _has_lazy_multicol(f):
+    """model state: some category with >= 2 columns is still serialised (in a serialised or parsed block)"""
+    return any(len(c["v"]["cols"]) >= 2 and (b["lz"] or c["lz"]) for b in f for c in b["v"])
 
 
 def _tla_bool(v):
@@ -1064,12 +1555,14 @@ def validate_traces(ctx, traces):
         raise RuntimeError(f"C06 S3: trace validation visited {res.distinct} states, expected {expect}")
     from harness.tlabind.tlaval import parse_value, to_py
 
-    def vals(tag):
+    def vals(tag, per_event=True):
+        # TLC may evaluate a PrintT more than once: one value per event (or per distinct value)
         seen, out = set(), []
         for txt in tlc.printed_values(res.out, tag):
             v = to_py(parse_value(txt))
-            if (v[1], v[2]) not in seen:
-                seen.add((v[1], v[2]))
+            key = (v[1], v[2]) if per_event else txt
+            if key not in seen:
+                seen.add(key)
                 out.append(v)
         return out
     notdom = vals("NOTDOM")
@@ -1082,6 +1575,15 @@ def validate_traces(ctx, traces):
     ctx.cov["s3_events"] = nev
     ctx.cov["s3_text_events"] = sum(len(t) for t in traces if t[0]["kind"] == "text")
     ctx.cov["s3_map_events"] = sum(len(t) for t in traces if t[0]["kind"] == "map")
+    ctx.cov["s3_pair_events"] = sum(len(t) for t in traces if t[0]["kind"] == "pair")
+    ctx.cov["s3_pair_events_reader_differs_from_model"] = len(vals("READDIFF"))
+    ctx.cov["s3_pair_answers_judged"] = sum(v[3] for v in vals("PAIRS"))
+    if ctx.cov["s3_pair_events_reader_differs_from_model"]:
+        ctx.note(f"diagnostic: in {ctx.cov['s3_pair_events_reader_differs_from_model']} pair events the real reader "
+                 "and the reader model disagree on a text that biotite did not write (event not judged)")
+    if ctx.cov["s3_pair_events"] and ctx.cov["s3_pair_answers_judged"] < 4 * ctx.cov["s3_pair_events"]:
+        _vacuity(f"pair events: only {ctx.cov['s3_pair_answers_judged']} answers judged in "
+                 f"{ctx.cov['s3_pair_events']} events")
     ctx.cov["s3_text_differs_from_writer_model"] = len(vals("TEXTDIFF"))
     ctx.cov["s3_kb_not_reproduced"] = len(vals("KBMISS"))
     if ctx.cov["s3_text_differs_from_writer_model"]:
@@ -1091,15 +1593,28 @@ def validate_traces(ctx, traces):
                           and sum(1 for e in t if e["oc"] == "ok" and e["op"] in NO_OUT) >= 2)
     ctx.nontrivial += sum(1 for t in traces if t[0]["kind"] == "text" for e in t if _nontrivial_text(e["F"]))
     ctx.sample({"s3_text_event": {k: traces[0][0][k] for k in ("F", "obs")}} if traces[0][0]["kind"] == "text"
-               else {"s3_map_events": traces[0][:2]})
+               else {"s3_events": traces[0][:2]})
     dirty = set()
-    for v in vals("MISMATCH"):
+    for v in vals("MISMATCH", per_event=False):
         tid, l, verdict, kb = v[1], v[2], v[3], v[4]
         dirty.add(tid - 1)
         e = traces[tid - 1][l - 1]
-        if e["kind"] == "text":
+        if e["kind"] == "pair":
+            q = e["eqs"][v[6] - 1]
+            ctx.mismatch({"stage": "S3", "kind": "pair", "tlc_known": False, "kb": [], "level": q["level"],
+                          "access": [q["al"], q["ar"]], "left": untok(e["left"]), "right": untok(e["right"]),
+                          "bn": untok(e["bn"]), "cn": untok(e["cn"]),
+                          "expected": v[7], "observed": q["got"], "trace": tid, "event": l})
+        elif e["kind"] == "text" and v[5] == "before":
+            # the table held by the built object differs from the table that was handed over
+            ctx.mismatch({"stage": "S3", "kind": "event-text", "tlc_known": False, "kb": [], "bad": ["before"],
+                          "F": e["F"], "raw": e["raw"], "how": {"mode": e["mode"]},
+                          "expected": {"oc": "ok", "f": e["F"]}, "observed": e["obs"], "before": e["before"],
+                          "trace": tid, "event": l})
+        elif e["kind"] == "text":
             ctx.mismatch({"stage": "S3", "kind": "event-text", "tlc_known": verdict == "known", "kb": kb,
-                          "F": e["F"], "expected": {"oc": "ok", "f": e["F"]}, "observed": e["obs"],
+                          "F": e["F"], "raw": e["raw"], "how": {"mode": e["mode"]}, "bad": ["after"],
+                          "expected": {"oc": "ok", "f": e["F"]}, "observed": e["obs"],
                           "model_prediction_oc": v[5], "trace": tid, "event": l})
         elif v[5] == "ser":
             # the call agreed with the specification, the write/read observation after it did not
